@@ -398,6 +398,8 @@ def oracle(inp):
     seplen = len(sep)
     stream = b"".join(chunks)
     rounds = sc.run_impl(inp)
+    if sc.abnormal(rounds):
+        return sc.abnormal(rounds)
     events = [e for r in rounds for e in r[1]]
     limit_errors = [e for e in events if e[0] == 1 and e[1] == 0]
     crashed = any(e[0] == 2 for e in events)
